@@ -196,6 +196,12 @@ fn render_prog(specs: &[Spec]) -> Prog {
     Prog { streams }
 }
 
+fn dedup_usize(v: &[usize]) -> Vec<usize> {
+    let mut out: Vec<usize> = Vec::new();
+    for x in v { if !out.contains(x) { out.push(*x); } }
+    out
+}
+
 fn dedup(v: &[String]) -> Vec<String> {
     let mut out: Vec<String> = Vec::new();
     for x in v { if !out.contains(x) { out.push(x.clone()); } }
@@ -319,20 +325,25 @@ struct Live {
 }
 
 impl Runner {
-    fn new() -> Self { Runner { rt: tokio::runtime::Builder::new_current_thread().enable_all().build().unwrap() } }
+    fn new() -> Self { Runner { rt: tokio::runtime::Builder::new_current_thread().build().unwrap() } }
 
+    #[allow(dead_code)]
     fn load(&self, vpl: &str) -> Result<Live, String> {
         let program = varpulis_parser::parse(vpl).map_err(|e| format!("parse: {}", e))?;
-        let (tx, rx) = mpsc::channel(200_000);
+        self.load_program(&program)
+    }
+
+    fn load_program(&self, program: &varpulis_core::ast::Program) -> Result<Live, String> {
+        let (tx, rx) = timed("channel", || mpsc::channel(200_000));
         let mut engine = Engine::new(tx);
-        engine.load(&program).map_err(|e| format!("load: {}", e))?;
+        timed("load", || engine.load(program)).map_err(|e| format!("load: {}", e))?;
         Ok(Live { engine, rx })
     }
 
     /// feed one chunk through the given entry point; returns (outputs, calls)
     fn feed(&self, live: &mut Live, path: Path, chunk: Vec<Event>) -> Result<(Vec<Event>, Vec<verif::StreamCall>), String> {
         verif::start();
-        let r: Result<(), String> = match path {
+        let r: Result<(), String> = timed("feed", || match path {
             Path::Event => {
                 let mut r = Ok(());
                 for e in chunk { r = self.rt.block_on(live.engine.process(e)); if r.is_err() { break; } }
@@ -341,7 +352,7 @@ impl Runner {
             Path::Batch => self.rt.block_on(live.engine.process_batch(chunk)),
             Path::Sync => live.engine.process_batch_sync(chunk),
             Path::Shared => self.rt.block_on(live.engine.process_batch_shared(chunk.into_iter().map(Arc::new).collect())),
-        };
+        });
         let calls = verif::take();
         r?;
         let mut out = Vec::new();
@@ -402,6 +413,15 @@ fn emit_prog_lines(ctx: &mut Ctx, it: &mut Intern, word: &str, prog: &Prog) {
     }
 }
 
+thread_local! { static TIMERS: std::cell::RefCell<BTreeMap<&'static str, f64>> = std::cell::RefCell::new(BTreeMap::new()); }
+fn timed<T>(key: &'static str, f: impl FnOnce() -> T) -> T {
+    let t = std::time::Instant::now();
+    let r = f();
+    TIMERS.with(|m| *m.borrow_mut().entry(key).or_insert(0.0) += t.elapsed().as_secs_f64());
+    r
+}
+fn print_timers() { if std::env::var("VERIF_ROUTE_TIMERS").is_ok() { TIMERS.with(|m| eprintln!("timers: {:?}", m.borrow())); } }
+
 fn debug() -> bool { std::env::var("VERIF_ROUTE_DEBUG").is_ok() }
 
 /// one C16/C17 scenario
@@ -420,7 +440,11 @@ fn scenario_paths(ctx: &mut Ctx, runner: &Runner, sc: usize, prop: &str) {
     ctx.count(&format!("streams:{}", prog.streams.len()));
     let names: Vec<String> = prog.streams.iter().map(|d| d.name.clone()).collect();
     // the router the engine built (C17: routing table, add_route dedup)
-    match runner.load(&vpl) {
+    let program = match varpulis_parser::parse(&vpl) {
+        Ok(p) => p,
+        Err(e) => { eprintln!("generator error: front end rejects a generated program: {}\n{}", e, vpl); std::process::exit(3); }
+    };
+    match runner.load_program(&program) {
         Ok(live) => {
             let routes = live.engine.verif_routes();
             let s = routes.iter().map(|(t, ss)| format!("{}:{}", it.ty(t), ss.iter().map(|x| it.ty(x).to_string()).collect::<Vec<_>>().join(","))).collect::<Vec<_>>();
@@ -434,7 +458,7 @@ fn scenario_paths(ctx: &mut Ctx, runner: &Runner, sc: usize, prop: &str) {
     let paths = [Path::Event, Path::Batch, Path::Sync, Path::Shared];
     for path in paths {
         let sizes = if path == Path::Event { vec![events.len()] } else { gen_split(&mut ctx.rng, events.len()) };
-        let mut live = runner.load(&vpl).unwrap();
+        let mut live = runner.load_program(&program).unwrap();
         let mut all_out: Vec<Event> = Vec::new();
         let mut all_calls: Vec<verif::StreamCall> = Vec::new();
         let mut failed = None;
@@ -595,18 +619,27 @@ fn scenario_reload(ctx: &mut Ctx, runner: &Runner, sc: usize) {
         Ok(p) => p,
         Err(e) => { eprintln!("generator error: front end rejects a generated program: {}\n{}", e, vpl2); std::process::exit(3); }
     };
+    let program1 = match varpulis_parser::parse(&vpl1) {
+        Ok(p) => p,
+        Err(e) => { eprintln!("generator error: front end rejects a generated program: {}\n{}", e, vpl1); std::process::exit(3); }
+    };
     let inputs = it.evs(events.iter());
     let feed_all = |live: &mut Live, evs: &[Event]| -> (Vec<Event>, Vec<verif::StreamCall>) {
         if evs.is_empty() { return (vec![], vec![]); }
         match runner.feed(live, path, evs.to_vec()) { Ok(x) => x, Err(e) => { eprintln!("engine error {}", e); std::process::exit(3); } }
     };
     // the never-reloaded engine of P (reference for `same`) and the fresh engine of P' (reference for k = 0)
-    let never: Option<String> = if same { let mut l = runner.load(&vpl1).unwrap(); let (o, _) = feed_all(&mut l, &events); Some(it.evs(o.iter())) } else { None };
-    let ks: Vec<usize> = (0..=events.len()).collect();
+    let (never_out, never_calls) = { let mut l = runner.load_program(&program1).unwrap(); feed_all(&mut l, &events) };
+    let never: Option<String> = if same { Some(it.evs(never_out.iter())) } else { None };
+    // reload at every point of the sequence; programs whose derived events multiply (cycles with fan-out)
+    // are reloaded at three points only
+    let heavy = never_calls.len() > 150;
+    if heavy { ctx.count("reload:heavy-scenario-3-points"); }
+    let ks: Vec<usize> = if heavy { dedup_usize(&[0, events.len() / 2, events.len()]) } else { (0..=events.len()).collect() };
     for &k in &ks {
-        let mut live = match runner.load(&vpl1) { Ok(l) => l, Err(e) => { eprintln!("generator error: {}\n{}", e, vpl1); std::process::exit(3); } };
+        let mut live = match runner.load_program(&program1) { Ok(l) => l, Err(e) => { eprintln!("generator error: {}\n{}", e, vpl1); std::process::exit(3); } };
         let (out_pre, calls_pre) = feed_all(&mut live, &events[..k]);
-        let rep = live.engine.reload(&program2);
+        let rep = timed("reload", || live.engine.reload(&program2));
         if let Err(e) = rep { ctx.case(&format!("reload {} {}", k, inputs), &format!("error:{}", e.replace('\n', " "))); continue; }
         let routes = live.engine.verif_routes();
         let (out_post, calls_post) = feed_all(&mut live, &events[k..]);
@@ -622,12 +655,15 @@ fn scenario_reload(ctx: &mut Ctx, runner: &Runner, sc: usize) {
             ctx.case(&format!("same {} {}", k, inputs), &format!("{} / {}", it.evs(all.iter()), nv));
         }
         if k == 0 {
-            let mut f = runner.load(&vpl2).unwrap();
+            let mut f = runner.load_program(&program2).unwrap();
             let (o, _) = feed_all(&mut f, &events);
             ctx.case(&format!("fresh0 {}", inputs), &format!("{} / {}", it.evs(out_post.iter()), it.evs(o.iter())));
         }
         // every stream of P' in isolation: a fresh engine of P' is handed exactly what the stream was handed
         // (before and after the reload if the stream is unchanged, after the reload if it is new or changed)
+        // (runs whose derived events multiply are isolated at the first and last reload point only)
+        let big = calls_pre.len() + calls_post.len() > 100;
+        if big && k != 0 && k != events.len() { ctx.count("iso:omitted-heavy-run"); continue; }
         for d2 in &p2.streams {
             let unchanged = p1.streams.iter().any(|d1| d1.name == d2.name && d1.body == d2.body && d1.subs == d2.subs);
             let post: Vec<&verif::StreamCall> = calls_post.iter().filter(|c| c.stream == d2.name).collect();
@@ -636,7 +672,8 @@ fn scenario_reload(ctx: &mut Ctx, runner: &Runner, sc: usize) {
             if unchanged { fed.extend(calls_pre.iter().filter(|c| c.stream == d2.name).map(|c| (*c.input).clone())); }
             let npre = fed.len();
             fed.extend(post.iter().map(|c| (*c.input).clone()));
-            let mut f = runner.load(&vpl2).unwrap();
+            if fed.len() > 60 { ctx.count("iso:omitted-long-input"); continue; }
+            let mut f = runner.load_program(&program2).unwrap();
             // one call per event, through the same entry point (the sync path's rename skipping shows in the recorded outputs)
             let mut ok = true;
             let mut calls_ref: Vec<verif::StreamCall> = Vec::new();
@@ -664,9 +701,14 @@ pub fn run(ctx: &mut Ctx, name: &str) {
             for sc in 0..n { scenario_paths(ctx, &runner, sc, name); }
         }
         "C23" => {
-            let n = if ctx.thorough { 2500 } else { 250 };
-            for sc in 0..n { scenario_reload(ctx, &runner, sc); }
+            let n = if ctx.thorough { 6000 } else { 600 };
+            for sc in 0..n {
+                let t = std::time::Instant::now();
+                scenario_reload(ctx, &runner, sc);
+                if std::env::var("VERIF_ROUTE_TIMERS").is_ok() && t.elapsed().as_secs_f64() > 1.0 { eprintln!("slow scenario {}: {:.1}s", sc, t.elapsed().as_secs_f64()); }
+            }
         }
         _ => {}
     }
+    print_timers();
 }
